@@ -266,8 +266,20 @@ def check(ctx):
             ctx.unit('unpack_strategies')
             sites += len(raw_slices(fi.node))
         seen_funcs.add(fi.id)
-        w = repo.walker(inline_depth=ctx.depth, max_paths=ctx.max_paths)
-        w.const_heap = parked          # a resolver / locator chosen by _compile is followed
+        # what _compile knows whenever it installs this function holds on every path of it
+        gsets = [set(g) for g in s.get('guard_sets', [])]
+        known = set.intersection(*gsets) if gsets else set()
+
+        def fold_(t, _known=known):
+            c_ = canon(t)
+            if c_ in _known:
+                return True
+            if ('not ' + c_) in _known:
+                return False
+            return None
+        w = repo.walker(inline_depth=ctx.depth, max_paths=ctx.max_paths, split_ifexp=True, fold=fold_)
+        w.const_heap = dict(repo.ctor_consts(ci))      # attributes the constructor derives from the declared ones
+        w.const_heap.update(parked)    # a resolver / locator chosen by _compile is followed
         # strictness holds under every interpreter configuration: a length test written as an
         # assert statement does not exist under python -O / PYTHONOPTIMIZE
         w.strip_asserts = True
